@@ -176,6 +176,16 @@ pub fn search(suite: &str, a: &[&str]) -> Option<String> {
                     return Some(format!("FAIL fill area box {:?} should be empty", fa.rectangle));
                 }
             }
+            // every corner radius grows by the outside part / shrinks by the inside part (saturating), like the sides
+            let rad = |c: &embedded_graphics::primitives::CornerRadii| [c.top_left, c.top_right, c.bottom_right, c.bottom_left];
+            for (k, (o, (g, f))) in rad(&r.corners).iter().zip(rad(&sa.corners).iter().zip(rad(&fa.corners).iter())).enumerate() {
+                if *g != o.saturating_add(Size::new_equal(out)) {
+                    return Some(format!("FAIL stroke area radius of corner {} is {:?}, expected {:?} + {}", k, g, o, out));
+                }
+                if *f != o.saturating_sub(Size::new_equal(ins)) {
+                    return Some(format!("FAIL fill area radius of corner {} is {:?}, expected {:?} - {}", k, f, o, ins));
+                }
+            }
             // an inside stroke never paints outside the shape, an outside stroke never inside it
             for ((y, x_), c) in x.native_map.iter() {
                 let p = Point::new(*x_, *y);
